@@ -410,7 +410,7 @@ class Session:
             # a free phase is fixed at exactly 0.0 by the user, the rest is fitted, the result is saved and loaded
             # into a freshly built model (where that phase is free and starts somewhere else)
             cand = [n for n in sorted(vm.trainable_vars) if n.endswith("i")]
-            if not cand:
+            if not cand or len(vm.trainable_vars) < 2:  # a fit needs at least one free parameter afterwards
                 return
             name = cand[op.get("i", 0) % len(cand)]
             vm.set_fix(name, 0.0)
@@ -422,7 +422,7 @@ class Session:
         if k == "fix_fit_free":
             # the likelihood-profile pattern: fix a (ranged) free parameter, fit the rest, free it again
             cand = [n for n in sorted(self.info["ranges"]) if n in vm.trainable_vars] or [n for n in sorted(vm.trainable_vars) if n.endswith("r")][:1]
-            if not cand:
+            if not cand or len(vm.trainable_vars) < 2:  # a fit needs at least one free parameter afterwards
                 return
             name = cand[0]
             vm.set_fix(name)
@@ -433,6 +433,9 @@ class Session:
                 vm.set_fix(name, unfix=True)
             return r
         # ---- fit
+        if not vm.trainable_vars:
+            log.count("probe.no_free_parameter_left_fit_skipped")  # nothing to minimise: not a fit
+            return
         method = op["method"]
         before = {kk: float(v) for kk, v in config.get_params().items()}
         free_before = list(vm.trainable_vars)
